@@ -391,6 +391,9 @@ def distance_wei_floyd(adjacency, transform=None):
             elif transform == 'inv':
                 #SPL = invert(adjacency)
                 SPL = 1 / adjacency
+                # an absent connection stored as -0.0 would become a
+                # connection of length -inf
+                SPL[adjacency == 0] = np.inf
             else:
                 raise ValueError("Unexpected transform type. Only 'log' and " +
                                  "'inv' are accepted")
